@@ -24,6 +24,30 @@ Definition run_case (w : node) (cwd : list name) (ts : list spath) (recursive : 
   (run_collect w cwd ts recursive inc exc, run_collect_abs w cwd ts recursive inc exc,
    run_spec w cwd ts recursive inc exc).
 
+(* compact output for big trees: every location as its index in a list of candidate files given relative to
+   the directory [root] (the number of candidates = not among them) *)
+Fixpoint strip_prefix (pre f : list name) : option (list name) :=
+  match pre, f with
+  | [], _ => Some f
+  | p :: pre', x :: f' => if str_eqb p x then strip_prefix pre' f' else None
+  | _ :: _, [] => None
+  end.
+Fixpoint index_of (cands : list (list name)) (f : list name) (i : N) : N :=
+  match cands with
+  | [] => i
+  | c :: cs => if names_eqb c f then i else index_of cs f (i + 1)
+  end.
+Definition loc_index (root : list name) (cands : list (list name)) (f : list name) : N :=
+  match strip_prefix root f with
+  | Some r => index_of cands r 0
+  | None => N.of_nat (length cands)
+  end.
+(* (model locations in order, spec locations), as indices *)
+Definition run_case_idx (w : node) (root : list name) (cands : list (list name)) (cwd : list name) (ts : list spath)
+           (recursive : bool) (inc exc : list str) : option (list N) * list N :=
+  (option_map (map (loc_index root cands)) (run_collect_abs w cwd ts recursive inc exc),
+   map (loc_index root cands) (run_spec w cwd ts recursive inc exc)).
+
 Definition default_patterns := (filesel_default_include, filesel_default_exclude, filesel_default_recursive).
 
 Definition run_glob (p n : str) : bool * bool := (glob_str p n, pat_ok p && name_ok n).
